@@ -124,6 +124,7 @@ CHECKS.update({
             CLAUSE + "Decides PL-DTYPE (rotated coordinates are not stored into a scratch array typed by an integer diagram), PL-RECV, PL-IDX, PL-FOOT, PL-SEG, PL-MAX (per call site of the highlighted segment), PL-DGM (incl. a plot_only selection with labels: each collection carries its own diagram's label), PL-LIM, PL-LAND (both landscape plots evaluated on a 3-depth "
             "landscape of symbols with a recording axes object, for a depth selection and the default, on a computed landscape and on one built with compute=False whose data "
             "appear only when compute_landscape is called: every line carries the requested depth's own data and label, and "
+            "the grid plot also asked for fewer points than the landscape has samples: every drawn sampled value sits at its own grid abscissa, and "
             "nothing is read from the landscape before it is computed). Declines: pixel-level "
             "rendering, single-precision rounding of offsets, legend contents, the 3-D landscape plots (they discard ax).",
             SYMNOTE + "Axes methods draw on their receiver; pyplot functions on the current axes.", "DESIGN.md §4 C20"),
@@ -146,10 +147,10 @@ CHECKS.update({
                   "+ call-graph reachability of random generators; GH-RESULT: the entry point evaluated with the per-pair work "
                   "stubbed for collections of 2, 3, 4, 5 and 7 graphs (chunked pair drivers followed) and the two-argument form; GH-INT: the type chooser evaluated at the "
                   "values around the type limits; GH-MAXD: bound provenance — backward expansion (reaching definitions, parameters into callers' arguments, helper returns, NamedTuple fields and "
-                  "single __init__ stores) of the two arguments of the distance-histogram builder along every call path",
+                  "single __init__ stores) of the two arguments of the distance-histogram builder along every call path; GH-LABEL: AST def-use rule over every function that receives the two labelled distance matrices",
             CLAUSE + "Decides GH-COERCE, GH-LCC, GH-SYM (incl. a normal form of triangle index pairs — triu/tril_indices(_from), "
             "[::-1], .T — deciding position-by-position transposition), GH-INT, GH-DET, GH-MAXD (the table of `b + 1` columns indexed by `b − distance` is always built with a bound that expands to a maximum covering the matrix it is built from, so no count wraps round to a wrong column — a necessary condition of valid brackets). Declines: that the bounds bracket the distance (C05) "
-            "and relabelling invariance of the bounds.",
+            "and relabelling invariance of the bounds beyond GH-LABEL (no bound term is the negation of an entry-by-entry comparison of the two labelled distance matrices used as a number: a relabelled copy of one graph would get a positive lower bound; the positive-outcome shortcut is sound and left alone).",
             "Trusted: scipy shortest_path / connected_components semantics; the accepted restriction idioms are DG[m][:, m], "
             "DG[np.ix_(m, m)], DG[m, :][:, m] (anything else is reported as unmodelled, exit 2).", "DESIGN.md §4 C17"),
 })
